@@ -313,7 +313,8 @@ ReleaseClient == /\ Env /\ s.hc.pc \in {"g_client_connected", "g_client_disconne
 \* tcp_timeout passes without activity: TimeoutWatchdog -> on_timeout -> client handler cancelled
 Timeout == /\ Env /\ On("timeout") /\ burst = 0 /\ s.hc.pc = "wait_handler" /\ ~s.timedOut /\ ~Blocked /\ s.t[0].intr
            /\ \E w \in {Cancel([s EXCEPT !.timedOut = TRUE] @@ [out |-> <<>>, cur |-> -2, cfg |-> cfg], 0)} :
-                EnvDone([k \in DOMAIN s |-> w[k]])
+                /\ s' = [k \in DOMAIN s |-> w[k]] /\ ops' = ops + 1 /\ UNCHANGED cfg /\ Emit(<<>>)
+                /\ burst' = cfg.burst          \* time passes only while the loop is idle: nothing else in this iteration
 
 \* the event loop runs until nothing is runnable
 Settle == /\ Live /\ burst > 0
